@@ -562,6 +562,15 @@ class ExcelCompiler:
         # 1) build graph for all needed outputs
         self._gen_graph(output_addrs)
 
+        # an input range that no formula reads as a range is not in the graph
+        # yet, its cells may well be
+        for addr in input_addrs:
+            if addr not in self.cell_map and ':' in addr and not (
+                    AddressRange(addr).is_unbounded_range) and any(
+                    a.address in self.cell_map
+                    for a in flatten(AddressRange(addr).resolve_range)):
+                self._gen_graph(addr)
+
         # 2) walk the dependant tree (from the inputs) and find needed cells
         needed_cells = set()
 
